@@ -152,3 +152,28 @@ func replaySpecCases(c *Ctx, items []*Item) map[string]*ReplayOutcome {
 	}
 	return res
 }
+
+// withSpecCases: a property's own replay harness first; obligations it has no answer for are replayed with the
+// inputs listed for their function in harness/speccheck/cases.json.
+func withSpecCases(primary func(*Ctx, []*Item) map[string]*ReplayOutcome) func(*Ctx, []*Item) map[string]*ReplayOutcome {
+	return func(c *Ctx, items []*Item) map[string]*ReplayOutcome {
+		res := map[string]*ReplayOutcome{}
+		if primary != nil {
+			for k, v := range primary(c, items) {
+				res[k] = v
+			}
+		}
+		var rest []*Item
+		for _, it := range items {
+			if oc := res[it.Name]; oc == nil || !oc.Ran {
+				rest = append(rest, it)
+			}
+		}
+		if len(rest) > 0 {
+			for k, v := range replaySpecCases(c, rest) {
+				res[k] = v
+			}
+		}
+		return res
+	}
+}
